@@ -15,7 +15,10 @@ InnerLink(i, signer, sigok) ==
   LinkD(InName(i), IF sigok THEN <<GoodSig(signer)>> ELSE <<BadSig(signer)>>,
         {Art(PM(i), "h1")}, {Art(PP(i), "h1")})
 
-States == {"valid", "othersigner", "misfiled", "unauthorised", "expired", "tampered", "innermissing",
+\* the delegated step may carry a dot in its name; "siblingdir": its inner links are placed in the
+\* directory that belongs to the name before the dot (another step's delegation directory)
+SNames == {"s1", "s1.v2"}
+States == {"valid", "siblingdir", "othersigner", "misfiled", "unauthorised", "expired", "tampered", "innermissing",
            "innerunauth", "innerbadsig", "innerrule", "wrongdir", "ownersigned", "nosig"}
 
 InnerSteps(n, state) ==
@@ -37,39 +40,43 @@ SubDoc(n, state) ==
    EXCEPT !.edit = IF state = "tampered" THEN "threshold" ELSE "none"]
 
 FileKey(state) == IF state = "unauthorised" THEN "k2" ELSE "k1"
-InnerDir(state) == IF state = "wrongdir" THEN << >> ELSE <<"s1." \o FileKey(state)>>
+InnerDirN(sname, state) ==
+  IF state = "wrongdir" THEN << >>
+  ELSE IF state = "siblingdir" THEN <<"s1." \o FileKey(state)>>
+  ELSE <<sname \o "." \o FileKey(state)>>
 
 \* the first inner step delegated once more (depth 3): in1 is a sub-sub-layout by k3 with step z1 by k2
 SubSub(ok) ==
   LayoutD(<<GoodSig("k3")>>, IF ok THEN 1000 ELSE -5, <<"k2">>,
           <<StepD("z1", <<"k2">>, 1, << >>, <<Simple("ALLOW", <<"*">>)>>)>>, << >>)
 
-InnerEntries(n, state, deepok) ==
-  LET dir == InnerDir(state) IN
+InnerEntries(sname, n, state, deepok) ==
+  LET dir == InnerDirN(sname, state) IN
   [i \in 1..n |->
      IF i = 1 /\ Deep /\ state \notin {"innermissing"}
      THEN Entry(dir, InName(1), "k3", SubSub(deepok))
      ELSE CASE state = "innerunauth" /\ i = n -> Entry(dir, InName(i), "k2", InnerLink(i, "k2", TRUE))
             [] state = "innerbadsig" /\ i = n -> Entry(dir, InName(i), "k3", InnerLink(i, "k3", FALSE))
             [] OTHER -> Entry(dir, InName(i), "k3", InnerLink(i, "k3", TRUE))]
-DeepEntries(state) ==
+DeepEntries(sname, state) ==
   IF Deep /\ state \notin {"innermissing"}
-  THEN <<Entry(Append(InnerDir(state), "in1.k3"), "z1", "k2",
+  THEN <<Entry(Append(InnerDirN(sname, state), "in1.k3"), "z1", "k2",
                LinkD("z1", <<GoodSig("k2")>>, {Art(PM(1), "h1")}, {Art(PP(1), "h1")}))>>
   ELSE << >>
 
-Top1 ==
+Top1(sname) ==
   LayoutD(<<GoodSig("o1")>>, 1000, <<"k1", "k2", "k3">>,
-          <<StepD("s1", <<"k1">>, 1, <<Simple("ALLOW", <<"*">>)>>, <<Simple("ALLOW", <<"*">>)>>)>>, << >>)
+          <<StepD(sname, <<"k1">>, 1, <<Simple("ALLOW", <<"*">>)>>, <<Simple("ALLOW", <<"*">>)>>)>>, << >>)
 
 MCInit ==
-  /\ \E n \in 1..3, state \in States, deepok \in BOOLEAN :
+  /\ \E sname \in SNames, n \in 1..3, state \in States, deepok \in BOOLEAN :
        /\ (~Deep => deepok)
-       /\ scn = Build(Top1, Own("o1"),
-                      <<Entry(<< >>, "s1", FileKey(state), SubDoc(n, state))>>
-                      \o (IF state = "innermissing" THEN SubSeq(InnerEntries(n, state, deepok), 1, n - 1)
-                          ELSE InnerEntries(n, state, deepok))
-                      \o DeepEntries(state), {})
+       /\ (state = "siblingdir" => sname = "s1.v2")
+       /\ scn = Build(Top1(sname), Own("o1"),
+                      <<Entry(<< >>, sname, FileKey(state), SubDoc(n, state))>>
+                      \o (IF state = "innermissing" THEN SubSeq(InnerEntries(sname, n, state, deepok), 1, n - 1)
+                          ELSE InnerEntries(sname, n, state, deepok))
+                      \o DeepEntries(sname, state), {})
   /\ VInitRest
 
 MCSpec == MCInit /\ [][VNext]_vars
